@@ -69,7 +69,8 @@ def cases(draw):
         if cluster is not None:
             # ==-equal values that print differently, in generated order on one evaluator
             env[names[0]] = draw(st.sampled_from(cluster))
-        for extra in draw(st.lists(st.sampled_from(["extra1", "unused", "zzz", "other_field"]), max_size=2, unique=True)):
+        lookalikes = [v for n in names for v in (n.upper(), n.capitalize(), n.swapcase(), n + "_", "_" + n, n + "2") if v not in names]
+        for extra in draw(st.lists(st.sampled_from(["extra1", "unused", "zzz", "other_field"] + lookalikes), max_size=3, unique=True)):
             # an unrelated field is never printed, so even an int that CPython refuses to convert to text is fine there
             env[extra] = draw(st.one_of(_values, st.sampled_from([10 ** 5000, -(10 ** 6000), float("nan"), (1, 2), [1, 2]])))
         inputs.append(M.enc_inputs(env))
@@ -146,6 +147,12 @@ def _judge(case):
                     tags.append("value:NUL")
             if _interesting(v):
                 nt = True
+        # unrelated extra fields (whatever their names and values) have no say
+        env0 = {n: env[n] for n in prog["splitters"]}
+        if len(env0) != len(env):
+            act0 = sut.call(ev, env0)
+            if act0 != act:
+                viol.append("unrelated extra fields changed the outcome: %r without them, %r with them | inputs=%r" % (act0, act, short))
         # units whose splitter values print identically share a bucket
         env2 = dict(env)
         for n in prog["splitters"]:
@@ -177,7 +184,38 @@ def judge_case(record):
     return (judge_proba(c) if "s" in c else judge(c))["viol"]
 
 
+def fixed_cases():
+    """every catalogue salt / hostile-but-legal string as the salt (either quote style where possible) with a handful of values,
+    and unrelated extra fields whose names differ from a splitter's only in letter case"""
+    pool = []
+    for s_ in ['say """hi"""', '"""', "'''", '""', "''", '""""""', "x\\", '\\"', "\\\\", "#", "\x00", "\x7f", "%s", "{}", "a\rb", "\x0c", "\u2028", "s" * 300,
+               "a'b", 'a"b'] + gen.TRICKY_STRS:
+        if s_ not in pool and not any(c in s_ for c in M.LINE_BREAKS) and not ('"' in s_ and "'" in s_):
+            pool.append(s_)
+    vals = ["u1", "", 0, None, True, 1.5, "é", "\x00"]
+    body = M.ret([(M.lit_str("g%d" % j), "1") for j in range(8)])
+    for s_ in pool:
+        for q in ('"', "'"):
+            if q in s_:
+                continue
+            prog = M.program("exp", body, salt=s_, splitters=["my_id", "region"], salt_q=q)
+            inputs = [M.enc_inputs({"my_id": v, "region": "eu", "MY_ID": "other-%d" % i, "Region": i, "REGION": None}) for i, v in enumerate(vals)]
+            yield {"prog": prog, "inputs": inputs}
+    # one splitter and no salt (the key is just the text of the value), two splitters, an empty salt: every falsy / odd value,
+    # several times over
+    body = M.ret([(M.lit_str("g%d" % j), "1") for j in range(16)])
+    odd = [None, None, None, "", "", 0, 0.0, False, True, -0.0, float("nan"), float("inf"), 10 ** 30, "None", "0", " ", "\x00", "é"]
+    for salt in (None, "", "s"):
+        for names in (["uid"], ["uid", "tenant"]):
+            prog = M.program("exp", body, salt=salt, splitters=names)
+            yield {"prog": prog, "inputs": [M.enc_inputs({n: v for n in names}) for v in odd]}
+
+
 def run(ctx, rec):
+    if ctx.shard == 0:
+        runner.direct_run(ctx, rec, "salt-catalogue", fixed_cases(), judge)
+        if rec.violations:
+            return
     runner.hyp_run(ctx, rec, "programs", cases(), judge, ctx.n(500, 3000))
     if rec.violations:
         return
